@@ -83,6 +83,10 @@ func cmdDrive(args []string) {
 		r := rand.New(rand.NewSource(*seed*1000003 + int64(id)))
 		var u *Universe
 		var gens []iset
+		if *prof == "burst" {
+			driveBurst(r, w, id, *maxAtoms, &cv)
+			continue
+		}
 		if *bits == 64 {
 			u, gens = randUniverse64(r, *maxAtoms)
 		} else if r.Intn(2) == 0 {
@@ -356,3 +360,60 @@ var op64 = map[string]bool{"New": true, "Build": true, "BitmapOf": true, "Clone"
 	"XorS": true, "AndNotS": true, "AndCard": true, "OrCard": true, "Intersects": true, "Equals": true, "FastOr": true, "FastAnd": true,
 	"ParOr": true, "FlipS": true, "Contains": true, "IsEmpty": true, "Card": true, "Min": true, "Max": true, "Rank": true, "Select": true,
 	"SelectAuto": true, "ToArray": true, "Ser64": true, "Load64": true, "ItNew": true, "ItTake": true, "ItPeek": true, "ItAdvance": true, "IterCb": true}
+
+// driveBurst: accumulation histories (the same small operation repeated dozens of times on one chunk).
+func driveBurst(r *rand.Rand, w *bufio.Writer, id int, maxAtoms int, cv *coverOut) {
+	u, gens, groups := accUniverse32(r, maxAtoms+10)
+	e := newExec(u, w, id, r.Int63())
+	e.begin()
+	ga, _ := u.project(gens[0])
+	e.run(Call{Op: "Build", Dst: 1, As: ga, Rcp: pick(r, []string{"Ro", "Ro", "R", "Rok", "Roz"})})
+	mode := r.Intn(6)
+	order := r.Perm(len(groups))
+	rounds := 1 + r.Intn(2)
+	for round := 0; round < rounds; round++ {
+		for _, gi := range order {
+			g := groups[gi]
+			switch mode {
+			case 0: // in-place Or with a small array operand
+				e.run(Call{Op: "Build", Dst: 2, As: g, Rcp: pick(r, []string{"M", "A", "B", "R"})})
+				e.run(Call{Op: "Or", X: 1, Y: 2})
+			case 1: // in-place Xor (adds on the first round, removes on the second)
+				e.run(Call{Op: "Build", Dst: 2, As: g, Rcp: "M"})
+				e.run(Call{Op: "Xor", X: 1, Y: 2})
+			case 2: // AddRange of the whole cell, then RemoveRange of it on the second round
+				c := u.atom(g[0]).Cell
+				if round == 0 {
+					e.run(Call{Op: "AddRange", X: 1, C0: c, C1: c + 1})
+				} else {
+					e.run(Call{Op: "RemoveRange", X: 1, C0: c, C1: c + 1})
+				}
+			case 3: // static Or accumulating into the same slot
+				e.run(Call{Op: "Build", Dst: 2, As: g, Rcp: "M"})
+				e.run(Call{Op: "OrS", Dst: 1, X: 1, Y: 2})
+			case 4: // Flip of the cell
+				c := u.atom(g[0]).Cell
+				e.run(Call{Op: "Flip", X: 1, C0: c, C1: c + 1})
+			default: // AndNot removing group by group after a bulk add
+				if round == 0 {
+					e.run(Call{Op: "Build", Dst: 2, As: g, Rcp: "M"})
+					e.run(Call{Op: "Or", X: 1, Y: 2})
+				} else {
+					e.run(Call{Op: "Build", Dst: 2, As: g, Rcp: "M"})
+					e.run(Call{Op: "AndNot", X: 1, Y: 2})
+				}
+			}
+		}
+		if r.Intn(2) == 0 {
+			e.run(Call{Op: "Card", X: 1})
+		}
+	}
+	e.run(Call{Op: "Ser", X: 1, V: r.Intn(4)})
+	e.run(Call{Op: "RunOptimize", X: 1})
+	e.run(Call{Op: "Card", X: 1})
+	cv.Traces++
+	cv.Events += e.events
+	for k, v := range e.cover {
+		cv.Ops[k] += v
+	}
+}
